@@ -17,7 +17,9 @@ impl Typstyle {
         source: &Source,
         utf8_range: Range<usize>,
     ) -> Result<(Range<usize>, String), Error> {
-        // Trim the give range to ensure no space aside.
+        // Clamp the range to the text before slicing it, then trim it to ensure no space aside.
+        let len = source.len_bytes();
+        let utf8_range = utf8_range.start.min(len)..utf8_range.end.min(len);
         let range = utils::trim_range(source.text(), utf8_range);
 
         let Some((node, mode)) =
